@@ -44,10 +44,11 @@ func init() {
 			}
 			return 8
 		},
-		Rule: "case 0 = the complete boundary table (0, ±1, ±2^k, ±2^k±1 for k=0..63, int64/uint64 min/max; big 2^k, 2^k±1, both signs, k=0..640). Every other case = 10000 numbers: boundary-biased int64, uint64 and big integers (<= 640 bits, both signs, biased to byte boundaries). For each: encoder output must equal the harness's own minimal two's-complement (or minimal unsigned) byte string computed with math/big, decode back to the number, and no proper suffix (shorter string) may decode to the same number; hex text must match -?0x[0-9a-f]+ , be parsed to the same number by math/big (independent parser) and by the goloop parser; HexInt/HexIntNN JSON, binary and codec forms round-trip. Non-trivial = distinct number that is negative or needs >= 2 bytes.",
+		Rule: "case 0 = the complete boundary table (0, ±1, ±2^k, ±2^k±1 for k=0..63, int64/uint64 min/max; big 2^k, 2^k±1, both signs, k=0..640). Every other case = 10000 numbers: boundary-biased int64, uint64 and big integers (<= 640 bits, both signs, biased to byte boundaries). For each: encoder output must equal the harness's own minimal two's-complement (or minimal unsigned) byte string computed with math/big, decode back to the number, and no proper suffix (shorter string) may decode to the same number; hex text must match -?0x[0-9a-f]+ , be parsed to the same number by math/big (independent parser) and by the goloop parser; HexInt/HexIntNN JSON, binary and codec forms round-trip. Every number also goes, as each Go integer type the typed any-codec accepts (int, int16/32/64, uint, uint16/32/64, *big.Int, *HexInt), through common.EncodeAny/DecodeAny (payload must be the harness's minimal two's complement, decoded number equal) and, for the whole boundary table, all uint64 >= 2^63 and every 8th value, through MarshalAny/UnmarshalAny over codec.BC and codec.MP. Non-trivial = distinct number that is negative or needs >= 2 bytes.",
 		MinNonTrivial: func(t string) int { return 100000 },
 		Required: []string{"int64_values", "uint64_values", "big_values", "hex_roundtrips", "boundary_table_values",
-			"enc_len_ge2", "negative_values", "top_bit_positive", "json_roundtrips", "codec_roundtrips", "shorter_rejected"},
+			"enc_len_ge2", "negative_values", "top_bit_positive", "json_roundtrips", "codec_roundtrips", "shorter_rejected",
+			"typed_any_roundtrips", "typed_any_roundtrips_uint64_ge_2p63", "typed_any_marshal_roundtrips_rlp", "typed_any_marshal_roundtrips_msgpack"},
 		Assumptions: []string{"math/big arithmetic and encoding/hex, encoding/json are the reference", "minimal length is taken over L >= 1 (a number occupies at least one byte; the empty string is also tolerated for zero)"},
 		// single-goroutine differential check: keep the GC from fanning out over all cores
 		TimeoutSec: func(t string) int {
@@ -98,7 +99,9 @@ func refUnsigned(x *big.Int) []byte {
 var hexText = regexp.MustCompile(`\A-?0x[0-9a-f]+\z`)
 
 type checker struct {
-	c *ev.Ctx
+	c     *ev.Ctx
+	n     int
+	table bool // inside the exhaustive boundary table
 }
 
 func hx(b []byte) string { return hex.EncodeToString(b) }
@@ -125,6 +128,8 @@ func (k *checker) int64(v int64) {
 	c := k.c
 	c.Eval(1)
 	c.Count("int64_values", 1)
+	k.n++
+	k.anyInt64(v, k.table || k.n%8 == 0)
 	x := big.NewInt(v)
 	want := refTwos(x)
 	enc := intconv.Int64ToBytes(v)
@@ -280,6 +285,8 @@ func (k *checker) uint64(v uint64) {
 	c := k.c
 	c.Eval(1)
 	c.Count("uint64_values", 1)
+	k.n++
+	k.anyUint64(v, k.table || k.n%8 == 0 || v >= 1<<63)
 	x := new(big.Int).SetUint64(v)
 	wantT := refTwos(x)
 	wantU := refUnsigned(x)
@@ -365,6 +372,8 @@ func (k *checker) big(x *big.Int) {
 	c := k.c
 	c.Eval(1)
 	c.Count("big_values", 1)
+	k.n++
+	k.anyBig(x, k.table || k.n%8 == 0)
 	want := refTwos(x)
 	k.seen(x, want)
 	keep := new(big.Int).Set(x)
@@ -482,6 +491,8 @@ func bigGen(r *rand.Rand) *big.Int {
 
 func (k *checker) boundaryTable() {
 	c := k.c
+	k.table = true
+	defer func() { k.table = false }()
 	n := 0
 	for kk := uint(0); kk < 64; kk++ {
 		p := uint64(1) << kk
